@@ -79,35 +79,67 @@ Lemma set_store_leaf_frame var s h p v s' ok q :
   set_store var s h p v = (s', ok) -> q <> p -> get_leaf s' q = get_leaf s q.
 Proof.
   unfold set_store. intros H Hn.
-  destruct (h_kind h); try (inversion H; subst; reflexivity);
-  (destruct (convert _ v) as [o|];
-   [inversion H; subst; rewrite get_set_other by congruence; apply get_leaf_add_conts
-   |inversion H; subst; destruct (v_set_atomic var); auto; apply get_leaf_add_conts]).
+  assert (G : forall k, (let s1 := add_conts s p (h_conts h) in
+                 match convert k v with
+                 | Some o => (set_leaf s1 p o, true)
+                 | None => (if v_set_atomic var then s else s1, false)
+                 end) = (s', ok) -> get_leaf s' q = get_leaf s q).
+  { intros k. cbv zeta. destruct (convert k v) as [o|]; intros E; inversion E; subst.
+    - rewrite get_set_other by congruence. apply get_leaf_add_conts.
+    - destruct (v_set_atomic var); auto. apply get_leaf_add_conts. }
+  destruct (h_kind h); try (apply G in H; exact H).
+  - inversion H; subst; reflexivity.
+  - destruct (forallb _ _); [|inversion H; subst; reflexivity].
+    destruct (convert KAny v); inversion H; subst; auto. apply get_set_other; congruence.
 Qed.
 Lemma set_store_failed_atomic s h p v s' :
   set_store Repaired s h p v = (s', false) -> s' = s.
 Proof.
-  unfold set_store. destruct (h_kind h); try (intros H; inversion H; fail);
-  (destruct (convert _ v); intros H; inversion H; subst; reflexivity).
+  unfold set_store.
+  assert (G : forall k, (let s1 := add_conts s p (h_conts h) in
+                 match convert k v with
+                 | Some o => (set_leaf s1 p o, true)
+                 | None => (if v_set_atomic Repaired then s else s1, false)
+                 end) = (s', false) -> s' = s).
+  { intros k. cbv zeta. destruct (convert k v); intros E; inversion E; subst; reflexivity. }
+  destruct (h_kind h); intros H; try (apply G in H; exact H).
+  - inversion H.
+  - destruct (forallb _ _); [|inversion H; subst; reflexivity].
+    destruct (convert KAny v); inversion H; subst; auto.
 Qed.
 Lemma set_store_conts_mono var s h p v s' ok c :
   set_store var s h p v = (s', ok) -> has_cont s c = true -> has_cont s' c = true.
 Proof.
   unfold set_store. intros H Hc.
-  destruct (h_kind h); try (inversion H; subst; assumption);
-  (destruct (convert _ v);
-   [inversion H; subst; rewrite has_cont_set_leaf, has_cont_add_conts, Hc; reflexivity
-   |inversion H; subst; destruct (v_set_atomic var); auto; rewrite has_cont_add_conts, Hc; reflexivity]).
+  assert (G : forall k, (let s1 := add_conts s p (h_conts h) in
+                 match convert k v with
+                 | Some o => (set_leaf s1 p o, true)
+                 | None => (if v_set_atomic var then s else s1, false)
+                 end) = (s', ok) -> has_cont s' c = true).
+  { intros k. cbv zeta. destruct (convert k v); intros E; inversion E; subst.
+    - rewrite has_cont_set_leaf, has_cont_add_conts, Hc; reflexivity.
+    - destruct (v_set_atomic var); auto. rewrite has_cont_add_conts, Hc; reflexivity. }
+  destruct (h_kind h); try (apply G in H; exact H).
+  - inversion H; subst; assumption.
+  - destruct (forallb _ _); [|inversion H; subst; assumption].
+    destruct (convert KAny v); inversion H; subst; auto.
 Qed.
 Lemma set_store_conts_new s h p v s' c :
   set_store Repaired s h p v = (s', true) -> has_cont s' c = true -> has_cont s c = true \/ is_prefix c p.
 Proof.
   unfold set_store. intros H Hc.
-  assert (G : forall s1, has_cont (add_conts s1 p (h_conts h)) c = true -> has_cont s1 c = true \/ is_prefix c p).
-  { intros s1 H1. rewrite has_cont_add_conts in H1. apply orb_true_iff in H1 as [H1|H1]; auto.
+  assert (G : forall k, (let s1 := add_conts s p (h_conts h) in
+                 match convert k v with
+                 | Some o => (set_leaf s1 p o, true)
+                 | None => (if v_set_atomic Repaired then s else s1, false)
+                 end) = (s', true) -> has_cont s c = true \/ is_prefix c p).
+  { intros k. cbv zeta. destruct (convert k v); intros E; inversion E; subst.
+    rewrite has_cont_set_leaf, has_cont_add_conts in Hc. apply orb_true_iff in Hc as [H1|H1]; auto.
     right. apply existsb_exists in H1 as [n [_ Hn]]. apply path_eqb_eq in Hn. exists n; auto. }
-  destruct (h_kind h); try (inversion H; subst; auto; fail);
-  (destruct (convert _ v); inversion H; subst; rewrite has_cont_set_leaf in Hc; auto).
+  destruct (h_kind h); try (apply G in H; exact H).
+  - inversion H; subst; auto.
+  - destruct (forallb _ _); [|inversion H].
+    destruct (convert KAny v); inversion H; subst; auto.
 Qed.
 
 (* ------------------------------------------------------------------ events *)
